@@ -478,17 +478,18 @@ def run_parser_matrix(rep):
         'RV': 'r', 'RC': '(+ r s)', 'RK': '2.5', 'RI': '(ite p r s)',
         'B': 'p', 'BV4': 'b', 'BV3': 'c', 'S': 't', 'A': 'a',
         'SEL': '(select a x)', 'LEN': '(str.len t)', 'NAT': '(bv2nat b)',
+        'BVK': '#b101', 'BK': 'true', 'SK': '"s"',
     }
     int_open = ('IV', 'IC', 'IC2', 'II', 'SEL', 'LEN', 'NAT')
     int_ground = ('IK', 'IG')
     real = ('RV', 'RC', 'RK', 'RI')
-    ops2 = ['+', '-', '*', '<', '<=', '>', '>=', '=', 'distinct']
+    ops2 = ['+', '-', '*', '<', '<=', '>', '>=', '=', 'distinct', '/', 'div']
     forms = []
     for op in ops2:
         for k1 in operands:
             for k2 in operands:
                 body = '(%s %s %s)' % (op, operands[k1], operands[k2])
-                if op in ('+', '-', '*'):
+                if op in ('+', '-', '*', '/', 'div'):
                     body = '(= %s %s)' % (body, body)
                 forms.append((op, (k1, k2), '(assert %s)' % body))
     for k1 in operands:
@@ -530,6 +531,11 @@ def run_parser_matrix(rep):
         lenient = (not strict_ok and all(k in int_ground or k in real
                                          for k in kinds)
                    and op not in ('store',))
+        if op == '/' and not strict_ok and all(
+                k in int_open or k in int_ground for k in kinds):
+            # legacy: pySMT used to print integer division as '/', and the
+            # parser still reads '/' over two Int terms that way
+            lenient = True
         if op == 'f' and not strict_ok and kinds[0] not in int_open + \
                 int_ground:
             lenient = False
